@@ -15,6 +15,7 @@ PARTIAL = [
     "the theorems about refineA54 need: X non-empty, sorted, inside [U_p, U_n), old knots and X tolerance separated, final multiplicities <= p (all satisfied by the list X the code computes: genX_hyps); for other X (e.g. a knot raised above multiplicity p) nothing is proved",
     "curves, surfaces and volumes (helper level; refineDir in every direction of a surface / volume; refine_knotvector on any subset of the two / three directions: refineKnotvector_preserves_surface, refineDir_preserves_volume, refineKnotvector_preserves_volume) are proved end-to-end under explicit hypotheses: well-formed object (CurveWF / SurfWF / VolWF), knot vector clamped at the END of each refined direction, 0 <= tol and tolerance separation of the old knots and the bisection knots of each refined direction (equal or further apart than tol), all stated on the ORIGINAL object",
     "rational objects: the theorems are about the homogeneous net (coordinatewise); the projection step is C01/C09's",
+    "guards stated as hypotheses (not used by the proofs, mirroring the code / driver): refineA54Rows_isocurve / knotRefinementRows_isocurve require rectangular rows (ragged: IndexError in the code, [] padding in the model) and refineA54Rows_isocurve a non-empty X (the helper raises 'Cannot refine' before A5.4); refinement_net_unique needs AllActive of the refined knot vector (necessary)",
 ]
 
 
